@@ -12,7 +12,7 @@ import copy
 from fractions import Fraction
 
 from harness.core import MachineryError
-from harness.drivers.exactprobe import lagrange_coeffs, pair, patched, polyval, to_fraction
+from harness.drivers.exactprobe import lagrange_coeffs, pair, parallel_tlc, patched, polyval, to_fraction
 
 META = {
     "id": "C20",
@@ -174,16 +174,23 @@ def _check_zeta_convergents():
 def run(chk):
     _check_zeta_convergents()
     # ---- B1: the transcription is internally consistent, wrong transcriptions are refuted ----
-    r = chk.tlc("CoeffsMC", "CoeffsMC.cfg", label="literature table: Casimir forms, printed decimals, QED derivation, known values")
-    if r.violated or not r.completed:
-        raise MachineryError(f"Coeffs.tla is internally inconsistent: {r.violated} {r.counterexample()[:800]}")
-    for mut, inv in (
+    muts = (
         ("b2nf1", "InvCasimir"),
         ("g3z3_28", "InvDecimal"),
         ("g3nf3_plus", "InvDecimal"),
         ("qed12_ca", "InvQed"),
-    ):
-        chk.tlc("CoeffsMC", f"CoeffsMC_{mut}.cfg", expect_violation=inv, label=f"mutated transcription {mut} (must be refuted)")
+    )
+    jobs = [
+        {"module": "CoeffsMC", "cfg": "CoeffsMC.cfg", "workers": 4,
+         "label": "literature table: Casimir forms, printed decimals, QED derivation, known values"}
+    ] + [
+        {"module": "CoeffsMC", "cfg": f"CoeffsMC_{mut}.cfg", "workers": 2, "expect_violation": inv,
+         "label": f"mutated transcription {mut} (must be refuted)"}
+        for mut, inv in muts
+    ]
+    r = parallel_tlc(chk, jobs)[0]
+    if r.violated or not r.completed:
+        raise MachineryError(f"Coeffs.tla is internally inconsistent: {r.violated} {r.counterexample()[:800]}")
     chk.note("mutant_transcriptions_refuted", 4)
 
     # ---- B3: the implementation's coefficients ----------------------------------------------
